@@ -616,7 +616,8 @@ pub fn run(ctx: &Ctx, c06: bool) -> i32 {
   // deep-huge stratum: radius / cell size > 1e5 (17+ levels below the start depth, outputs of
   // ~1e6 cells)
   {
-    let specs: Vec<(u8, f64, f64, f64)> = if quick { vec![(17, 0.83, 1.0, 0.3)] } else { vec![(17, 0.83, 1.0, 0.3), (18, 0.45, 4.0, -0.66), (20, 0.11, 0.3, 1.0), (22, 0.0175, 2.5, 0.35), (25, 2.2e-3, 1.0, 0.62), (28, 3.0e-4, 5.5, -0.2)] };
+    // (the second quick entry is 19 levels below its start depth: ~8e6 cells)
+    let specs: Vec<(u8, f64, f64, f64)> = if quick { vec![(17, 0.83, 1.0, 0.3), (25, 0.0105, 1.0, 0.3)] } else { vec![(17, 0.83, 1.0, 0.3), (18, 0.45, 4.0, -0.66), (20, 0.11, 0.3, 1.0), (22, 0.0175, 2.5, 0.35), (25, 2.2e-3, 1.0, 0.62), (28, 3.0e-4, 5.5, -0.2), (25, 0.0105, 1.0, 0.3), (29, 1.7e-4, 4.0, -0.66)] };
     for (d, r, lon, lat) in specs {
       large_q.push(ConeQ { variant: 0, depth: d, delta: 0, lon, lat, r });
       if !quick {
